@@ -7,6 +7,11 @@ BASELINE_OFF = ("cd /repo && cargo nextest run --workspace --no-fail-fast --tool
                 "--test-threads 8 --offline || (cd /repo && cargo test --workspace --no-fail-fast --offline)")
 
 CHECKS = {
+ "C08": dict(
+   technique="proptest over statement specs per dialect; oracle = recursive-descent statement parsers for MySQL and Postgres (clause order, multiplicity, separators, dialect exclusivity) producing a clause inventory that is compared with the inventory computed from the spec alone",
+   text="Exploration: 200 000 (quick) / 4 000 000 (thorough) generated statements for MySQL and Postgres in both rendering modes; each must parse under the transcribed statement grammar of its dialect and the recovered inventory (every clause, items in call order, expressions as neutral trees, the dialect's NULLS form, dialect-specific constructs) must equal what the builder was given.",
+   note="No MySQL / Postgres engine exists offline: the statement grammars (stmt_inv.rs) and expression grammars (parse.rs) are hand transcriptions of the manuals; constructs of uncertain status are counted as undecided, never reported.",
+   ref="DESIGN.md 4/C08"),
  "C09": dict(
    technique="proptest over portable statement specs; oracle = metamorphic / differential execution: the MySQL and Postgres renderings are transliterated token by token into SQLite spelling and all six texts (3 backends x 2 modes) are executed on the real SQLite engine, rows and table contents compared",
    text="Exploration: 150 000 (quick) / 3 000 000 (thorough) statements from the portable subset (SELECT with joins, grouping, set operations incl. nested arms, NULLS / FIELD ordering, LIMIT / OFFSET, CTEs; INSERT VALUES / SELECT / default row; UPDATE; DELETE), each rendered for the three backends in both modes and executed after a purely lexical transliteration; function names that the source dialect does not define are reported.",
